@@ -413,6 +413,7 @@ func mc07Admit(x *mc.Exec, sig string, bySig map[string]int64, admitted map[stri
 func c07Body(x *mc.Exec, maxLen int, kinds []int, caps []int, maxFreeLog2 int, st *c07Stats) mc.Verdict {
 	capacity := caps[x.ChooseFree(len(caps), "capacity")]
 	useBytes := x.ChooseFree(2, "MapStringTop/MapStringTopBytes") == 1
+	c07Scratch := make([]byte, 0, 64) // the "receive buffer" of this execution, reused by every MapStringTopBytes call
 	hook := &c07Hook{x: x, maxFreeLog2: maxFreeLog2}
 	rng := rand.New(1)
 	rng.Hook = hook
@@ -471,7 +472,13 @@ func c07Body(x *mc.Exec, maxLen int, kinds []int, caps []int, maxFreeLog2 int, s
 			next = c07Clone(item)
 			hook.beginAttempt(next, attempt)
 			if useBytes {
-				mv = next.MapStringTopBytes(rng, capacity, TagUnionBytes{S: []byte(tag.S), I: tag.I}, kd.Count)
+				// the caller owns the bytes (receivers and the aggregator parse the next packet into the
+				// same buffer): hand them over in a scratch buffer that is overwritten after the call
+				scratch := append(c07Scratch[:0], tag.S...)
+				mv = next.MapStringTopBytes(rng, capacity, TagUnionBytes{S: scratch, I: tag.I}, kd.Count)
+				for i := range scratch {
+					scratch[i] = 0xEE
+				}
 			} else {
 				mv = next.MapStringTop(rng, capacity, tag, kd.Count)
 			}
@@ -496,6 +503,13 @@ func c07Body(x *mc.Exec, maxLen int, kinds []int, caps []int, maxFreeLog2 int, s
 			mv.AddCounterHost(rng, kd.Count, TagUnion{})
 		}
 		want.Count += kd.Count
+		// the row owns its keys: every key of Top is still found under itself (a key that aliases the
+		// caller's buffer changes when the buffer is reused, and the entry can no longer be looked up or deleted)
+		for k := range item.Top {
+			if v, ok := item.Top[k]; !ok || v == nil {
+				return fail("C07:top-key-does-not-own-its-string", fmt.Sprintf("after event %d: top value key {%d %q} is in the row but cannot be looked up (the key changed after it was stored: it aliases the bytes the caller passed to MapStringTopBytes)", i+1, k.I, k.S))
+			}
+		}
 		states = append(states, c07StateKey(item))
 		if sig, msg := c07Compare(fmt.Sprintf("after event %d", i+1), c07Observe(item), want); sig != "" {
 			return fail(sig, msg)
